@@ -24,7 +24,7 @@ RULE = (
     'variable (increasing seconds, at any position among the variables) and '
     '1-5 (in ~4% of cases 85-120, header of 100-140 lines) dependent '
     'variables (identifier names incl. name_unit forms, units '
-    'without commas, f8/f4), values 0 or +-[1e-30,1e30] (f8 also up to '
+    'without commas - incl. parentheses, slashes, blanks, exponents, # % -, f8/f4), values 0 or +-[1e-30,1e30] (f8 also up to '
     '1e300 / down to 1e-300 and the extremes of the double range) incl. '
     '7-digit '
     'rounding boundaries, per-variable missing codes from typical (-9999, '
@@ -72,7 +72,11 @@ NAMES = ['O3', 'NO2_ppbv', 'CO', 'HCHO_pptv', 'Pressure', 'Temp_K', 'ALT',
 INDEP = ['Start_UTC', 'Time', 'UTC', 'time_mid', 'Time_Start']
 UNITS = ['ppbv', 'pptv', 'hPa', 'K', 'm', 'degrees', 'molec/cm3', 'm s-1',
          '%', 's-1', 'seconds', 'ug m-3', 'unitless', '1', 'deg C',
-         'hours since 2004-06-26']
+         'hours since 2004-06-26',
+         # parentheses, slashes, exponents, '#', '%', degree-like words
+         'molec/(cm3 s)', '#/cm3 (STP)', 'ug m-3', '1e-6 (mol mol-1)',
+         'degrees (N)', '% (v/v)', 'W m^-2', 'deg_C', '(unitless)',
+         'kg/(m2 s)', 'ppbv (dry)', 'm2/s2', 'degrees_north', 'nmol mol^-1']
 IUNITS = ['seconds', 's', 'seconds since midnight UTC', 'seconds_past_0Z']
 MISS_TYPICAL = [-9999, -9999, -99999, -999999, -9999999, -8888.8, -999.9,
                 -9999.0, -7777, 9999999, -999]
@@ -476,6 +480,10 @@ def check_case(spec):
         r.label('missing-positive')
     if any(d['dtype'] == 'f4' for d in deps):
         r.label('f4')
+    if any('(' in d['unit'] for d in deps):
+        r.label('unit-parentheses')
+    if any(ch in d['unit'] for d in deps for ch in '#%^'):
+        r.label('unit-special-chars')
     if any(d['build'] == 'plain' for d in deps):
         r.label('plain-variable')
     if spec['indep']['pos'] != 0:
